@@ -52,15 +52,27 @@ CHECKS = {
                  'future.Apply/Apply2: C06.',
         assumptions=['panic values are compared by their canonical rendering', 'debug.Stack() content of try.panicError is not modelled'],
     ),
+    'C03': dict(
+        spec=['FpVerif.Spec.C03'],
+        harnesses=[H('hamt', 'oracle_hamt', 40000, 4000000)],
+        level='proof',
+        modelled='immutable/map.go (all node kinds, set/delete/get, mergeIntoNode, explicit-stack iterator, builders incl. the in-place path), '
+                 'map.go / set.go wrappers incl. zero-value fallbacks; trie SHAPE, size and iteration digests compared after every mutating op',
+        assumptions=['Hashable.Hash/Eqv are pure, total and lawful (Eqv equivalence, Eqv => equal Hash)',
+                     'bits.OnesCount32 = number of one bits; uint32 bitmap arithmetic modelled on Nat (no overflow, proved)',
+                     'zero-value UnsafeGoMap/UnsafeGoSet fallbacks: correspondence + direct checks only'],
+    ),
     'C04': dict(
-        spec=['FpVerif.Spec.C04Seq', 'FpVerif.Spec.C04Facts'],
+        spec=['FpVerif.Spec.C04Seq', 'FpVerif.Spec.C04Facts', 'FpVerif.Spec.C03'],
         facts=facts_factx,
-        harnesses=[H('seqheap', 'oracle_seqheap', 3000, 150000)],
+        harnesses=[H('seqheap', 'oracle_seqheap', 3000, 150000), H('hamt', 'oracle_hamt', 20000, 2000000)],
         level='proof',
         level_note='trusted: Lean kernel (propext/Classical.choice/Quot.sound only); model fidelity checked by correspondence (alias class = which backing '
                    'array and offset, and contents, of every result; plus the direct check that no backing array ever seen changes over its full capacity). '
-                   'PARTIAL: this check covers fp.Seq / package seq at backing-array level and the value-receiver facts for Option/Try/tuples/Seq; '
-                   'persistence of the immutable Map/Set (HAMT node sharing, builders) is covered by the C03 machinery.',
+                   'fp.Seq / package seq at backing-array level (theorem persistent) and value-receiver facts for Option/Try/tuples/Seq; immutable Map/Set: the '
+                   'value-level HAMT model is persistent by construction, so the Lean theorems (Spec.C03) do not speak about Go pointer sharing — PARTIAL there: '
+                   'node sharing, the in-place builder path and builder-after-Build are tied by the hamt harness, which keeps every version of a branching history '
+                   'alive and re-reads all of them after every later operation (shape + content), plus model-free persistence checks.',
         modelled='seq.go (Widen, Init, Tail, Take, Drop, Filter, FilterNot, Map, Add, Append, Concat, Reverse), seq/seq_op.go (Sort, Distinct, Scan, Span, '
                  'Partition, Map, Flatten, Collect; Fold/FoldTry/Reduce/Min/Max/GroupBy/Zip/ZipWithIndex/ToGoSet and iterator.Sort/ToSeq as non-writing calls); '
                  'facts: receiver kinds of all methods of Option, Try, TupleN, LabelledN, Seq.',
@@ -255,7 +267,7 @@ for _k, _v in CHECKS_TC.items():
         _h['spec_level'] = True
 CHECKS.update(CHECKS_TC)
 
-HOOK_COMMITS = ['068ea8a', '2723e24']
+HOOK_COMMITS = ['068ea8a', '2723e24', 'd1abfff']
 
 NOT_APPLICABLE = {
     'C13': "byte-level reproducibility of three generator executables over a file tree: no executable Lean model short of a model of "
